@@ -244,6 +244,8 @@ func roRun(prop, tier string, c Case, w *Worker) (res Result) {
 			pa = pa + "/"
 		case 2:
 			pa = strings.TrimPrefix(pa, "/")
+		case 3:
+			pa = []string{"", " ", ".", "./"}[r.Intn(4)]
 		}
 		k := []string{"create", "mkdir", "mkdirall", "remove", "removeall", "rename", "chmod", "chown", "chtimes", "symlink", "openfile", "openfile", "openfile", "stat", "stat", "list", "read", "read", "lstat", "readlink"}[r.Intn(20)]
 		kinds[k] = true
@@ -270,6 +272,9 @@ func roRun(prop, tier string, c Case, w *Worker) (res Result) {
 			okc = mustPerm("RemoveAll", ro.FS.RemoveAll(pa))
 		case "rename":
 			pb := pickPath()
+			if r.Intn(6) == 0 {
+				pb = ""
+			}
 			calls = append(calls, fmt.Sprintf("Rename(%q,%q)", pa, pb))
 			okc = mustPerm("Rename", ro.FS.Rename(pa, pb))
 		case "chmod":
@@ -283,6 +288,9 @@ func roRun(prop, tier string, c Case, w *Worker) (res Result) {
 			okc = mustPerm("Chtimes", ro.FS.Chtimes(pa, time.Unix(1e9, 0), time.Unix(1e9, 0)))
 		case "symlink":
 			pb := pickPath()
+			if r.Intn(6) == 0 {
+				pb = ""
+			}
 			calls = append(calls, fmt.Sprintf("Symlink(%q,%q)", pa, pb))
 			okc = mustPerm("Symlink", ro.FS.(afero.Linker).SymlinkIfPossible(pa, pb))
 		case "openfile":
